@@ -6,6 +6,8 @@ import (
 	"go/token"
 	"go/types"
 	"strings"
+
+	"golang.org/x/tools/go/ssa"
 )
 
 func init() {
@@ -33,6 +35,7 @@ func init() {
 }
 
 func runC12(c *Ctx) {
+	runC12Bounds(c)
 	runC12Group(c)
 	runC12PtrErr(c)
 	runC12Assert(c)
@@ -528,10 +531,29 @@ func allocatedHere(st *State, mt *Term) bool {
 
 func runC12Div(c *Ctx) {
 	p := c.P
-	c.Rule("R12.6", "E2", "integer divisors in server packages are non-zero constants or dominated by a positivity fact", 10)
+	c.Rule("R12.6", "E6/E2", "integer divisors in server packages exclude zero (interval proof on SSA, with the length invariant of Cache.entries; dominating tests as a fallback)", 10)
 	eng := p.Facts()
+	ia := p.Intervals()
+	// len(cache.entries) is bounded below by everything ever stored there
+	entries := p.Field("packetcache", "Cache", "entries")
+	if entries != nil {
+		inv, notes := ia.FieldLenInvariant(entries)
+		ia.LenItv = func(f *types.Var) (Itv, bool) {
+			if f == entries {
+				return inv, true
+			}
+			return Itv{}, false
+		}
+		c.Check(inv.Lo.Sign() > 0, "R12.6", "invariant len(Cache.entries) >= 1", entries.Pos(),
+			fmt.Sprintf("len(Cache.entries) in %s: %s", inv, strings.Join(notes, "; ")),
+			fmt.Sprintf("the cache can be created or resized with capacity 0 (len in %s): the ring arithmetic divides by it. %s", inv, strings.Join(notes, "; ")))
+		// the analysis of functions done while computing the invariant did not use it
+		ia.fns = map[*ssa.Function]*FnIntervals{}
+		ia.params = map[*ssa.Parameter]Itv{}
+	} else {
+		c.Unknown("R12.6", "anchor Cache.entries", 0, "field not found")
+	}
 	k := newKeyer()
-	// divisions whose divisor is a codec clock rate: server constants (assumption)
 	for _, fs := range p.Sources() {
 		pk := shortPkg(fs.Pkg.PkgPath)
 		if pk == "galenectl" || pk == "main" {
@@ -539,6 +561,7 @@ func runC12Div(c *Ctx) {
 		}
 		info := fs.Pkg.TypesInfo
 		var ff *FuncFacts
+		ssaFns := p.ssaOfSrc(fs)
 		ast.Inspect(fs.Body(), func(n ast.Node) bool {
 			if lit, ok := n.(*ast.FuncLit); ok && lit != fs.Lit {
 				return false
@@ -554,19 +577,45 @@ func runC12Div(c *Ctx) {
 			if tv := info.Types[be.Y]; tv.Value != nil {
 				return true // constant divisor: the compiler rejects zero
 			}
+			key := k.key("divisor", types.ExprString(be.Y), "in", fs.Name)
+			// SSA interval of the divisor (all instances of the function)
+			proved, why := len(ssaFns) > 0, ""
+			found := false
+			for _, sf := range ssaFns {
+				fi := ia.Analyze(sf)
+				for _, b := range sf.Blocks {
+					for _, ins := range b.Instrs {
+						bo, ok := ins.(*ssa.BinOp)
+						if !ok || bo.Pos() != be.OpPos || (bo.Op != token.QUO && bo.Op != token.REM) {
+							continue
+						}
+						found = true
+						yi := fi.At(bo.Y, b)
+						if yi.empty() || (yi.Lo.Sign() <= 0 && yi.Hi.Sign() >= 0) {
+							proved = false
+							why = "interval " + yi.String()
+						} else {
+							why = "divisor in " + yi.String()
+						}
+					}
+				}
+			}
+			if found && proved {
+				c.OK("R12.6", key, be.Pos(), "%s", why)
+				return true
+			}
 			if ff == nil {
 				ff = eng.Analyze(fs)
 			}
-			key := k.key("divisor", types.ExprString(be.Y), "in", fs.Name)
 			st, reach := ff.At(be)
 			if !reach || st == nil {
 				return true
 			}
-			ok2, why := divisorNonZero(ff, st, be.Y)
+			ok2, why2 := divisorNonZero(ff, st, be.Y)
 			if ok2 {
-				c.OK("R12.6", key, be.Pos(), "%s", why)
+				c.OK("R12.6", key, be.Pos(), "%s", why2)
 			} else {
-				c.Bad("R12.6", key, be.Pos(), "divisor %s is not shown non-zero: %s", types.ExprString(be.Y), why)
+				c.Bad("R12.6", key, be.Pos(), "divisor %s is not shown non-zero: %s; %s", types.ExprString(be.Y), why, why2)
 			}
 			return true
 		})
